@@ -115,6 +115,32 @@ def main(rep, ws, tier):
         d = deps(S.ret()) | S.bases()
         ok = all('staticState' in x for x in d) and lcg_node(S.ret(), A48, C48, 64) is not None
         rep.ob(nm, 'R18.pure', HOLDS if ok else VIOLATED, 'uses only the documented static state %s' % sorted(d), where, nontrivial=False)
+        # the same value as the explicit-state form, bit for bit, on the static state (however it is written)
+        gb = [b for b in S.bases() if 'staticState' in b]
+        lc = lcg_node(S.ret(), A48, C48, 64)
+        if len(gb) != 1 or lc is None:
+            rep.ob(nm + '#value', 'R18.n' if nm == 'lrand48' else 'R18.e', VIOLATED, 'the static state is not advanced by the POSIX recurrence', where); continue
+        g_in = [T.inp(gb[0], 2 * i, 2, 'i16') for i in range(3)]
+        gwords = {g_in[0]: (0, 16), g_in[1]: (16, 16), g_in[2]: (32, 16)}
+        Xp, X = lc
+        xv = B.Evaluator(None, 64, words=gwords).ev(X)
+        ev2 = B.Evaluator(Xp, 64)
+        gouts = [S.out(gb[0], 2 * i, 2, 'i16') for i in range(3)]
+        okst = xv.bits == [('in', i) for i in range(48)] + [0] * 16 and all(ev2.ev(o).bits == [('in', 16 * i + j) for j in range(16)] for i, o in enumerate(gouts))
+        ret = S.ret()
+        if nm == 'lrand48':
+            rv = ev2.ev(ret)
+            okr = rv.bits[:31] == [('in', 17 + i) for i in range(31)] and all(b == 0 for b in rv.bits[31:])
+            rep.ob(nm + '#value', 'R18.n', HOLDS if (okst and okr) else VIOLATED,
+                   'advances the static state by the recurrence and returns x\'[47:17], as nrand48 does' if (okst and okr) else
+                   ('the static state is not s2:s1:s0 -> x\'[47:32], x\'[31:16], x\'[15:0]' if not okst else 'returns %r, expected x\'[47:17] zero-extended (nrand48 of the static state)' % rv), where)
+        else:
+            okv = ret.op == 'fadd' and any(a.op == 'const' and T.const_value(a) == -1 for a in ret.args)
+            bc_ = [a for a in ret.args if a.op == 'bitcast'] if okv else []
+            want = [('in', 44 + i) for i in range(4)] + [('in', i) for i in range(48)] + [(0x3ff >> i) & 1 for i in range(11)] + [0]
+            okr = bool(bc_) and ev2.ev(bc_[0].args[0]).bits == want
+            rep.ob(nm + '#value', 'R18.e', HOLDS if (okst and okr) else VIOLATED,
+                   'advances the static state by the recurrence and returns the erand48 packing of x\'' if (okst and okr) else 'is not erand48 of the static state', where)
     f = fn('srand48')
     S = I.run(f)
     g = [b for b in S.bases() if 'staticState' in b]
